@@ -115,6 +115,32 @@ def rand_clique(rng, gd):
     return C
 
 
+NEAR_TIE_KINDS = ["abs9", "abs12", "rel6", "rel7", "rel12", "big7", "bigabs", "neg7", "zeromix", "f32", "bigint", "negbig"]
+
+
+def near_tie_values(rng, kind, ks):
+    """numbers that are exactly comparable but nearly tied at several scales; k = 0..3, so exact ties occur too"""
+    f = {"abs9": lambda k: k * 1e-9, "abs12": lambda k: k * 1e-12,
+         "rel6": lambda k: 1 + k * 1e-6, "rel7": lambda k: 1 + k * 1e-7, "rel12": lambda k: 1 + k * 1e-12,
+         "big7": lambda k: 1e6 * (1 + k * 1e-7), "bigabs": lambda k: 1e6 + k * 1e-3,
+         "neg7": lambda k: -(1 + k * 1e-7), "zeromix": lambda k: (k - 1) * 1e-9,
+         "f32": lambda k: float(np.float32(1 + k * 1e-6)), "bigint": lambda k: 10 ** 6 + k,
+         "negbig": lambda k: -(10 ** 6) - k}[kind]
+    return [f(k) for k in ks]
+
+
+def near_tie_sel(rng, n):
+    """weight vector with near-ties; `w` = ranks (order-isomorphic integers: what the exact model and the exact
+    oracle compare), `f` = the numbers handed to the code, `dt` = how they are packed"""
+    kind = rng.choice(NEAR_TIE_KINDS)
+    vals = near_tie_values(rng, kind, [rng.randint(0, 3) for _ in range(n)])
+    order = sorted(set(vals))
+    assert all(order[i] < order[i + 1] for i in range(len(order) - 1))
+    dt = {"f32": "f32", "bigint": rng.choice(["ilist", "i64"]), "negbig": rng.choice(["ilist", "i64"])}.get(
+        kind, rng.choice(["list", "f64", "mixed"]))
+    return dict(w=[order.index(x) for x in vals], f=vals, dt=dt, kind=kind)
+
+
 def rand_sel(rng, gd, allow_degree=True):
     r = rng.random()
     if r < 0.3:
@@ -123,6 +149,8 @@ def rand_sel(rng, gd, allow_degree=True):
         return "degree"
     hi = rng.choice([1, 2, 3, 9])
     r = rng.random()
+    if r > 0.6 and gd["nodes"]:    # near-ties at several scales, several dtypes
+        return near_tie_sel(rng, len(gd["nodes"]))
     if r < 0.2:     # quarter-integer float weights, some negative (the model sees 4*w)
         return dict(w=[rng.randint(-3, hi) for _ in gd["nodes"]], scale=4)
     if r < 0.35:    # pairwise distinct weights: the rule leaves no tie
@@ -133,6 +161,17 @@ def rand_sel(rng, gd, allow_degree=True):
 
 
 def py_sel(sel, rng=None):
+    if isinstance(sel, dict) and "f" in sel and len(sel["f"]) == len(sel["w"]):
+        f, dt = sel["f"], sel.get("dt", "list")
+        if dt == "f64":
+            return np.array(f, dtype=np.float64)
+        if dt == "f32":
+            return np.array(f, dtype=np.float32)
+        if dt == "i64":
+            return np.array(f, dtype=np.int64)
+        if dt == "mixed":     # python ints where the value is integral, floats elsewhere
+            return [int(x) if float(x).is_integer() else x for x in f]
+        return list(f)
     if isinstance(sel, dict):
         w = sel["w"]
         if sel.get("scale"):
@@ -672,8 +711,9 @@ def chk_resize(ctx, case):
     return st, r
 
 
-def judge_toplist(ctx, rp, what, lst, max_count, seen):
-    """lst: [(density, nodes)], seen: {frozenset(nodes): Fraction density} of everything offered"""
+def judge_toplist(ctx, rp, what, lst, max_count, seen, exact=False):
+    """lst: [(density, nodes)], seen: {frozenset(nodes): density (Fraction, or the exact float when `exact`)} of
+    everything offered"""
     dens = [d for d, _ in lst]
     if any(dens[i] < dens[i + 1] for i in range(len(dens) - 1)):
         ctx.fail("toplist-not-sorted", f"{what}: densities {dens} are not in non-increasing order", rp)
@@ -687,7 +727,7 @@ def judge_toplist(ctx, rp, what, lst, max_count, seen):
         return
     for d, s in lst:
         fs = frozenset(s)
-        if fs not in seen or abs(float(seen[fs]) - d) > 1e-12 or list(s) != sorted(set(s)):
+        if fs not in seen or (seen[fs] != d if exact else abs(float(seen[fs]) - d) > 1e-12) or list(s) != sorted(set(s)):
             ctx.fail("toplist-foreign-entry", f"{what}: entry ({d}, {s}) is not one of the offered subgraphs with its density", rp)
             return
     missing = [fs for fs in seen if fs not in set(keys)]
@@ -707,14 +747,16 @@ def chk_update_list(ctx, case):
     max_count, items, coins = case["max"], case["items"], case.get("coins", [])
     ctx.oracle_cases += 1
     rp = dict(chk="update_list", case=case)
+    vals = case.get("values")           # optional: density of rank k is values[k] (strictly increasing, nearly tied)
+    dens = (lambda k: vals[k]) if vals else (lambda k: k / 16)
     lst, seen, trace = [], {}, []
     with scripted(coins):
         for k, s in items:
-            subgraph._update_subgraphs_list(lst, (k / 16, list(s)), max_count)
-            seen.setdefault(frozenset(s), Fraction(k, 16))
-            trace.append([[int(round(d * 16)), list(x)] for d, x in lst])
-    what = f"_update_subgraphs_list x{len(items)} (max_count {max_count}, items {items})"
-    judge_toplist(ctx, rp, what, lst, max_count, seen)
+            subgraph._update_subgraphs_list(lst, (dens(k), list(s)), max_count)
+            seen.setdefault(frozenset(s), dens(k))
+            trace.append([[d, list(x)] for d, x in lst])
+    what = f"_update_subgraphs_list x{len(items)} (max_count {max_count}, items {[[dens(k), s] for k, s in items]})"
+    judge_toplist(ctx, rp, what, lst, max_count, seen, exact=True)
     return trace
 
 
